@@ -378,6 +378,18 @@ def check_pack_purity(res, P, modes, groups, v, sig):
             if not np.array_equal(np.asarray(o, dtype=np.float64), first[("pack", name)]):
                 bad("layout-dependent", "vect_from_params(op=%s) with %s differs" % (name, label))
                 return
+    # pack(unpack(v)) = v for EVERY vector, whatever the dtype of the start parameters: a vector of
+    # non-integers (not representable in single precision either) through integer / float32 params
+    vh = va + 0.5 + 2.0 ** -30
+    for label, PP in (("int64 start parameters", Pa.astype(np.int64)),
+                      ("float32 start parameters", Pa.astype(np.float32))):
+        u = vect_to_params(vh, PP, Ma, ga)
+        back = np.asarray(vect_from_params(u, Ma, ga, operation=None), dtype=np.float64)
+        if back.shape != vh.shape or not np.array_equal(back, vh):
+            bad("unpack-truncates", "pack(unpack(v)) != v with %s: v = %s, came back as %s"
+                % (label, vh.tolist()[:6], back.tolist()[:6]))
+            return
+    res.stat("pack_lossless_other_dtypes")
     res.stat("pack_purity_variants", len(variants))
 
 
